@@ -427,9 +427,18 @@ impl CursorTracker for CursorTrackerImpl<'_> {
                         };
                         let col_start = col_ws_start + ws.len;
 
-                        (new_token_offset
-                            - (col_start - (col as usize).clamp(col_ws_start, col_start)))
-                            as u32
+                        let back = col_start - (col as usize).clamp(col_ws_start, col_start);
+                        // The kept whitespace of an ignored token can contain blanks that are
+                        // longer than one byte; the cursor must not end up inside one of them.
+                        let back = if fmt.is_ignored() {
+                            let ws = tok.get_leading_whitespace();
+                            let start = ws.len().saturating_sub(back);
+                            ws.len().saturating_sub(floor_char_boundary(ws, start))
+                        } else {
+                            back
+                        };
+
+                        new_token_offset.saturating_sub(back) as u32
                     }
                 }
             };
